@@ -60,6 +60,22 @@ if os.path.exists(mp):
         meta = json.load(open(mp))
     except Exception as e:
         meta = {"agent_meta_unparseable": str(e)}
+prev_path = os.path.join(dst, "meta.json")
+if os.path.exists(prev_path):
+    try:
+        prev = json.load(open(prev_path)).get("verification", {})
+        if prev.get("demo_confirmed"):
+            res["demo_confirmed"] = prev["demo_confirmed"]
+        hist = prev.get("earlier_runs", [])
+        if prev.get("checks"):
+            hist.append({c: ("detected" if r.get("exit") else "NOT detected") for c, r in prev["checks"].items()})
+        if hist:
+            res["earlier_runs"] = hist
+        for k in ("detected_by", "baseline_note"):
+            if prev.get(k):
+                res[k] = prev[k]
+    except Exception:
+        pass
 meta["verification"] = res
-json.dump(meta, open(os.path.join(dst, "meta.json"), "w"), indent=1)
+json.dump(meta, open(prev_path, "w"), indent=1)
 print("worktree kept at", wt, "for the demo run; remove with: git -C /repo worktree remove --force", wt)
